@@ -504,3 +504,44 @@ pub async fn run_async(mode: Mode, src: PollRead, index_bytes: Vec<u8>, side: Si
     }
     Ok(t.out)
 }
+
+/// For every query of the history: virtual positions (start of the first chunk, start of the last chunk) the index
+/// yields for it, or None (no chunk / query cannot be created / unmapped query / CRAM). Used to recognise one root
+/// cause: `poll_seek` of the async BGZF reader skipping a seek to the position of the previous `poll_seek`.
+pub fn chunk_starts(mode: Mode, data: &[u8], index_bytes: &[u8], queries: &[Q]) -> io::Result<Vec<Option<(u64, u64)>>> {
+    use csi::BinningIndex;
+    fn starts<I: BinningIndex>(index: &I, id: Option<usize>, q: &Q) -> Option<(u64, u64)> {
+        let region = q.region()?;
+        let chunks = index.query(id?, region.interval()).ok()?;
+        let first = chunks.first()?;
+        let last = chunks.last()?;
+        Some((u64::from(first.start()), u64::from(last.start())))
+    }
+    let name_of = |q: &Q| match q {
+        Q::Region(n, _) => Some(n.clone()),
+        Q::Unmapped => None,
+    };
+    Ok(match mode {
+        Mode::BamBai => {
+            let index = bam::bai::io::Reader::new(index_bytes).read_index()?;
+            let header = bam::io::Reader::new(data).read_header()?;
+            queries.iter().map(|q| starts(&index, name_of(q).and_then(|n| header.reference_sequences().get_index_of(n.as_bytes())), q)).collect()
+        }
+        Mode::SamGzCsi => {
+            let index = csi::io::Reader::new(index_bytes).read_index()?;
+            let header = sam::io::Reader::new(noodles_bgzf::io::Reader::new(data)).read_header()?;
+            queries.iter().map(|q| starts(&index, name_of(q).and_then(|n| header.reference_sequences().get_index_of(n.as_bytes())), q)).collect()
+        }
+        Mode::BcfCsi => {
+            let index = csi::io::Reader::new(index_bytes).read_index()?;
+            let header = bcf::io::Reader::new(data).read_header()?;
+            queries.iter().map(|q| starts(&index, name_of(q).and_then(|n| header.string_maps().contigs().get_index_of(&n)), q)).collect()
+        }
+        Mode::VcfGzTbi | Mode::GenericTbi => {
+            let index = tabix::io::Reader::new(index_bytes).read_index()?;
+            let names = index.header().map(|h| h.reference_sequence_names().clone()).unwrap_or_default();
+            queries.iter().map(|q| starts(&index, name_of(q).and_then(|n| names.get_index_of(n.as_bytes())), q)).collect()
+        }
+        Mode::CramCrai => queries.iter().map(|_| None).collect(),
+    })
+}
